@@ -19,7 +19,7 @@ func init() {
 	register(&PropInfo{
 		ID: "C09", Level: "other", MinObls: 20,
 		Explanation: "Decided from the code's shape and its linear arithmetic, not by running it: R1 every frame and every IAT-mode write is provably at most 1448 bytes long (bounds engine); R2 burst targets, paranoid write lengths and IAT delays are samples of the connection's own distributions; R3 seed adoption: the client (and only the client, and only for a 24-byte payload) resets lenDist from the received seed and iatDist from SHA-256 of it, the server sends the seed its own distribution is built from, and the three construction sites agree on bounds, bias flag and IAT-seed derivation; R4 (bounds engine) makePacket's precondition at every call site and unreachability of the panics on the Write path; R5 burst arithmetic: makePacket appends exactly 21+len(data)+padLen bytes, and on every success path of padBurst (tail + appended - target) is 0 or 1448 (ends on the target) or 1469 / 2917 (target plus one header, only when the needed padding is at most a header) — proved by Fourier-Motzkin refutation per path, for all (tail,target) pairs; R6 paranoid mode: the buffered length is at least the sampled length on every edge into the write.",
-		NotCovered: []string{"termination of the paranoid resampling loop", "timing (sleep durations are checked only as the expression iatDist.Sample()*100 microseconds)", "that values in the length table are themselves within [0,1448] is C12's Sample/IntRange rule plus an assumed contract"},
+		NotCovered: []string{"termination of the paranoid loop beyond the structural variant of R6b (finding F10)", "timing (sleep durations are checked only as the expression iatDist.Sample()*100 microseconds)", "that values in the length table are themselves within [0,1448] is C12's Sample/IntRange rule plus an assumed contract"},
 		Trusted:    []string{"go/types+go/ssa faithful", "library contracts of checker/contracts.go (bytes.Buffer, secretbox.Seal, WeightedDist.Sample in [minValue,maxValue])"},
 		Run:        runC09,
 	})
@@ -197,6 +197,7 @@ func runC09(c *Ctx) {
 	}
 
 	c09Paranoid(c, p, write, padBurst, isSampleOf)
+	c09ParanoidProgress(c, p, write, padBurst)
 	c09Seed(c, p, readPackets)
 	c09Arith(c, p, makePacket, padBurst, mpWrite, msl, hdr)
 
@@ -370,6 +371,50 @@ func lastLenOnEdge(p *Prog, blk *ssa.BasicBlock, buf ssa.Value) *ssa.Call {
 		blk = blk.Preds[0]
 	}
 	return nil
+}
+
+// c09ParanoidProgress — R6b: a structural variant for the IAT loop.  The loop runs while frameBuf is
+// not empty; it terminates for every table if every trip round it that ADDS to the buffer (padding)
+// also drains it (the padded write takes the whole buffer).  A trip that pads and goes round again
+// without writing can replenish the buffer for ever.
+func c09ParanoidProgress(c *Ctx, p *Prog, write, padBurst *ssa.Function) {
+	ob := c.Obl("R6", "transports/obfs4:(*obfs4Conn).Write#paranoid-progress", "Write terminates for every length table: no trip round the IAT loop appends padding to the frame buffer and then goes round again without having written from it (such a trip can replenish the buffer for ever when all table values are small)")
+	var pads []ssa.CallInstruction
+	for _, call := range p.CallsIn(write, "(*$M/transports/obfs4.obfs4Conn).padBurst") {
+		if blockOnCycle(call.Block()) {
+			pads = append(pads, call)
+		}
+	}
+	if len(pads) == 0 {
+		ob.HoldNT("no padding inside a loop of Write")
+		return
+	}
+	bad := ""
+	for _, pad := range pads {
+		fbKey := objKey(stripConv(pad.Common().Args[1]))
+		drains := map[ssa.Instruction]bool{}
+		for _, rd := range p.CallsIn(write, "(*bytes.Buffer).Read") {
+			if objKey(stripConv(rd.Common().Args[0])) == fbKey {
+				drains[rd] = true
+			}
+		}
+		for _, head := range write.Blocks {
+			for _, pred := range head.Preds {
+				if !isBackEdge(pred, head) || !naturalLoop(pred, head)[pad.Block()] || len(pred.Instrs) == 0 {
+					continue
+				}
+				last := pred.Instrs[len(pred.Instrs)-1]
+				if canReachWithout(pad, last, drains) {
+					bad = fmt.Sprintf("after padBurst at %s the loop can go round again (edge %s -> %s) without any Read from the frame buffer: padding is added but nothing is written on that trip", p.InstrPos(pad), pred.Comment, head.Comment)
+				}
+			}
+		}
+	}
+	if bad != "" {
+		ob.Violate("%s", bad)
+	} else {
+		ob.HoldNT("%d padding site(s) in the loop, each followed by a write from the buffer before the next trip", len(pads))
+	}
 }
 
 // c09Seed — R3.
